@@ -156,14 +156,17 @@ func (s *store) reload() {
 	newdir, err := lib.NewDirFromConfig(s.configfile)
 	if err != nil {
 		wl.Printf("store: reload failed: %v, keeping current configuration", err)
+		verifEvent("reload.fail", "load", s.dir)
 		return
 	}
 	if err := newdir.Check(); err != nil {
 		wl.Printf("store: reload failed: %v, keeping current configuration", err)
+		verifEvent("reload.fail", "check", s.dir)
 		return
 	}
 
 	s.dir = newdir
+	verifEvent("reload.ok", "", s.dir)
 	s.hooks.NewStore <- s.dir.BaseDir
 	wl.Printf("store: successfully reloaded")
 }
@@ -178,11 +181,13 @@ func (s *store) init(username, password string) (result initResult) {
 		return
 	}
 	result.err = s.dir.Init(username, password)
+	verifEvent("exec.init", username, password, true, result.err)
 	return
 }
 
 func (s *store) check() (result checkResult) {
 	result.err = s.dir.Check()
+	verifEvent("exec.check", result.err)
 	return
 }
 
@@ -196,15 +201,19 @@ func (s *store) add(username, password string, isAdmin bool) (result addResult) 
 		return
 	}
 	result.err = s.dir.AddUser(username, password, isAdmin)
+	verifEvent("exec.add", username, password, isAdmin, result.err)
 	if result.err == nil {
 		s.hooks.Notify <- true
+		verifEvent("notify.sent")
 	}
 	return
 }
 
 func (s *store) remove(username string) (result removeResult) {
 	s.dir.RemoveUser(username)
+	verifEvent("exec.remove", username)
 	s.hooks.Notify <- true
+	verifEvent("notify.sent")
 	return
 }
 
@@ -218,34 +227,43 @@ func (s *store) update(username, password string) (result updateResult) {
 		return
 	}
 	result.err = s.dir.UpdateUser(username, password)
+	verifEvent("exec.update", username, password, result.err)
 	if result.err == nil {
 		s.hooks.Notify <- true
+		verifEvent("notify.sent")
 	}
 	return
 }
 
 func (s *store) setAdmin(username string, isAdmin bool) (result setAdminResult) {
 	result.err = s.dir.SetAdmin(username, isAdmin)
+	verifEvent("exec.setadmin", username, isAdmin, result.err)
 	if result.err == nil {
 		s.hooks.Notify <- true
+		verifEvent("notify.sent")
 	}
 	return
 }
 
 func (s *store) list() (result listResult) {
 	result.list, result.err = s.dir.List()
+	verifEvent("exec.list", result.list, result.err)
 	return
 }
 
 func (s *store) listFull() (result listFullResult) {
 	result.list, result.err = s.dir.ListFull()
+	verifEvent("exec.listfull", result.list, result.err)
 	return
 }
 
 func (s *store) authenticate(username, password string) (result authenticateResult) {
 	result.ok, result.isAdmin, result.upgradeable, result.lastChanged, result.err = s.dir.Authenticate(username, password)
+	verifEvent("exec.auth", username, password, result.ok, result.isAdmin, result.upgradeable, result.err)
 	if result.ok && result.upgradeable && s.upgradeChan != nil {
+		verifGate("upgrade.send")
 		s.upgradeChan <- updateRequest{username: username, password: password}
+		verifEvent("upgrade.sent", username, password)
 	}
 	return
 }
@@ -255,6 +273,7 @@ func (s *store) dispatchRequests() {
 	signal.Notify(reload, syscall.SIGHUP)
 
 	for {
+		verifGate("disp.idle")
 		select {
 		case <-reload:
 			s.reload()
@@ -271,6 +290,7 @@ func (s *store) dispatchRequests() {
 				req.response <- s.update(req.username, req.password)
 			} else {
 				wdl.Printf("upgrade(local): upgrading '%s'", req.username)
+				verifEvent("upgrade.begin", req.username, req.password)
 				if resp := s.update(req.username, req.password); resp.err != nil {
 					wl.Printf("upgrade(local): failed for '%s': %v", req.username, resp.err)
 				} else {
